@@ -132,6 +132,9 @@ def plan(seed, subbatch):
         pattern.append((o, max(o, c) + pat.choice((0, 1, 2, 3)), min(o, c) - pat.choice((0, 1, 2, 3)), c,
                         pat.randint(1, 5000)))
     tick = 0.1
+    # with gap filling: every second measured candle arrives three buckets late (the same at every rung), so one
+    # append also computes the inserted candles - a number bounded by the gap, not by the history
+    probe_gap = bool(tf) and sub_rng(seed, "probe-gap").random() < 0.3
     feed = sub_rng(seed, "feed")
     ops = [{"op": "new", "preload": []}]
     pos = 0
@@ -147,7 +150,8 @@ def plan(seed, subbatch):
         last_close = seg[-1][4] if seg else 100.0
         t0 = last_ts - last_ts % tf_s + 2 * tf_s          # bucket aligned start of the probe sequence
         base = max(last_close, 60 * tick)
-        probe = [[t0 + (k + 1) * base_s, round(base + po * tick, 6), round(base + ph * tick, 6),
+        gap_at = (lambda k: 3 * tf_s * max(0, (k - settle_n + 1) // 2)) if probe_gap else (lambda k: 0)
+        probe = [[t0 + (k + 1) * base_s + gap_at(k), round(base + po * tick, 6), round(base + ph * tick, 6),
                   round(base + pl * tick, 6), round(base + pc * tick, 6),
                   0 if regimes and regimes[0] in ("zerovol", "stall0") else pv]
                  for k, (po, ph, pl, pc, pv) in enumerate(pattern)]
@@ -167,6 +171,9 @@ def plan(seed, subbatch):
                        "lifespan_s": (10 * (rows[-1][0] - rows[0][0] + 100 * tf_s) if rows and sub_rng(seed, "lifespan").random() < 0.2
                                       else None),
                        "utc_offset_min": sub_rng(seed, "aware").choice((None, None, None, 0, 60, -210)),
+                       "fill": probe_gap,
+                       # two candles per measured append: the first of them is calculated at a NON-latest index
+                       "probe_pairs": sub_rng(seed, "probe-pairs").random() < 0.3,
                        "probe_bare": sub_rng(seed, "probe-form").random() < 0.3,
                        "probe_ties": sub_rng(seed, "probe-ties").random() < 0.25},
             "ops": ops, "fired": dict(fired)}
@@ -180,10 +187,14 @@ def _build(cfg):
         spec = cfg["members"][0]
         if life:
             spec = dict(spec, common=dict(spec["common"], lifespan_s=life))
+        if cfg.get("fill") and spec["common"].get("timeframe"):
+            spec = dict(spec, common=dict(spec["common"], timeframe_fill=True))
         ind = build(spec, [])
         return ind, [ind]
     inds = [build(m) for m in cfg["members"]]
     kw = {"candles_lifespan": timedelta(seconds=life)} if life else {}
+    if cfg.get("fill"):
+        kw["timeframe_fill"] = True
     return Hexital("sim", [], inds, **kw), inds
 
 
@@ -228,15 +239,18 @@ def _execute(trace):
                     calls = []
                     mem = []
                     mt = meter(base=not any(m["common"].get("timeframe") for m in cfg["members"]))
-                    for k_row, row in enumerate(op["candles"]):
-                        if cfg.get("probe_ties") and k_row % 2 == 1:
-                            row = [last_ts] + list(row[1:])     # same second as the candle before it (legal)
-                        if last_ts is not None and row[0] < last_ts:
+                    rows_m = list(op["candles"])
+                    groups = ([rows_m[x:x + 2] for x in range(0, len(rows_m), 2)] if cfg.get("probe_pairs")
+                              else [[r] for r in rows_m])
+                    for k_row, grp in enumerate(groups):
+                        if cfg.get("probe_ties") and k_row % 2 == 1 and not cfg.get("probe_pairs"):
+                            grp = [[last_ts] + list(grp[0][1:])]     # same second as the candle before it (legal)
+                        if last_ts is not None and grp[0][0] < last_ts:
                             continue
-                        last_ts = row[0]
-                        delivered += 1
-                        c = mk_candles([row])
-                        if cfg.get("probe_bare"):
+                        last_ts = grp[-1][0]
+                        delivered += len(grp)
+                        c = mk_candles(grp)
+                        if cfg.get("probe_bare") and len(c) == 1:
                             c = c[0]      # a single candle handed over as a bare Candle object
                         lines, ncalls, nbytes = mt.measure_with_memory(subject.append, c)
                         per.append(lines)
